@@ -43,6 +43,7 @@ type PickRes struct {
 	Err  string
 }
 
+//go:norace
 func (r PickRes) String() string {
 	switch r.Kind {
 	case ResPlaced:
@@ -76,6 +77,7 @@ type Msg struct {
 	Num    int32
 }
 
+//go:norace
 func buildMsg(loc int, keys []string) *Msg {
 	m := &Msg{Num: 7}
 	switch loc {
@@ -97,41 +99,43 @@ func buildMsg(loc int, keys []string) *Msg {
 	return m
 }
 
+//go:norace
 func fillMsg(dst *Msg, src *Msg) { *dst = *src }
 
 // Call is one RPC issued by the harness.
 type Call struct {
-	ID          int
-	Op          int
-	Method      int
-	MethodName  string
-	ReqKeys     []string
-	ReplyKeys   []string
-	NoGCP       bool
-	Stream      bool
-	NilMsg      bool
-	Age         int
-	PubIdx      int
-	HasDeadline bool
-	Deadline    time.Duration
-	CancelledAt time.Duration
+	ID           int
+	Op           int
+	Method       int
+	MethodName   string
+	ReqKeys      []string
+	ReplyKeys    []string
+	NoGCP        bool
+	Stream       bool
+	NilMsg       bool
+	Age          int
+	PubIdx       int
+	HasDeadline  bool
+	Deadline     time.Duration
+	CancelledAt  time.Duration
 	WasCancelled bool
-	ctx         context.Context
-	cancel      context.CancelFunc
-	Res         PickRes
-	done        func(balancer.DoneInfo)
-	InvokeSeq   int
-	waiter      kern.Waiter
-	Outcome     int
-	tag         *TaskTag
-	InFlight    bool
-	Invoked     bool
-	Returned    bool
-	Completed   bool
-	task        *kern.Task
-	req, reply  *Msg
+	ctx          context.Context
+	cancel       context.CancelFunc
+	Res          PickRes
+	done         func(balancer.DoneInfo)
+	InvokeSeq    int
+	waiter       kern.Waiter
+	Outcome      int
+	tag          *TaskTag
+	InFlight     bool
+	Invoked      bool
+	Returned     bool
+	Completed    bool
+	task         *kern.Task
+	req, reply   *Msg
 }
 
+//go:norace
 func (c *Call) CtxEnded(at time.Duration) bool {
 	return (c.WasCancelled && c.CancelledAt <= at) || (c.HasDeadline && c.Deadline <= at)
 }
@@ -155,17 +159,17 @@ type Sim struct {
 	model *Model
 	res   *simkit.Result
 
-	callerCfg  *grpcgcp.GCPBalancerConfig
-	cfgSnap    *pb.ApiConfig
-	cfg2       *grpcgcp.GCPBalancerConfig
-	drained    int
-	opIdx      int
-	coreQueued int
-	healing    bool
+	callerCfg    *grpcgcp.GCPBalancerConfig
+	cfgSnap      *pb.ApiConfig
+	cfg2         *grpcgcp.GCPBalancerConfig
+	drained      int
+	opIdx        int
+	coreQueued   int
+	healing      bool
 	resolverSent bool
-	stop       bool
-	addrSets   [][]resolver.Address
-	Opts       Options
+	stop         bool
+	addrSets     [][]resolver.Address
+	Opts         Options
 }
 
 // Options of a run that are not part of the plan.
@@ -175,6 +179,7 @@ type Options struct {
 	WantProps map[string]bool // nil = all
 }
 
+//go:norace
 func (s *Sim) methodEntries() []methodEntry {
 	loc := locators[s.plan.Cfg.Locator%len(locators)]
 	es := []methodEntry{
@@ -193,6 +198,7 @@ func (s *Sim) methodEntries() []methodEntry {
 	return es
 }
 
+//go:norace
 func (s *Sim) buildAPIConfig() *pb.ApiConfig {
 	c := s.plan.Cfg
 	api := &pb.ApiConfig{}
@@ -222,8 +228,10 @@ func (s *Sim) buildAPIConfig() *pb.ApiConfig {
 	return api
 }
 
+//go:norace
 func keyName(i int) string { return fmt.Sprintf("k%d", i) }
 
+//go:norace
 func keyNames(is []int) []string {
 	out := make([]string, len(is))
 	for i, x := range is {
@@ -233,6 +241,8 @@ func keyNames(is []int) []string {
 }
 
 // Run executes the plan under the kernel inside a synctest bubble.
+//
+//go:norace
 func Run(t *testing.T, plan *Plan, src *simkit.Source, opts Options) *simkit.Result {
 	res := &simkit.Result{}
 	h := simkit.Bubble(t, func() {
@@ -246,6 +256,7 @@ func Run(t *testing.T, plan *Plan, src *simkit.Source, opts Options) *simkit.Res
 	return res
 }
 
+//go:norace
 func (s *Sim) vio(prop, rule, facts, msg string) {
 	sig := prop + "|" + rule
 	if facts != "" {
@@ -255,6 +266,7 @@ func (s *Sim) vio(prop, rule, facts, msg string) {
 	s.k.Logf("VIOLATION %s %s", sig, msg)
 }
 
+//go:norace
 func (s *Sim) run() {
 	k := kern.New(s.src)
 	k.LogOn = s.Opts.Log
@@ -340,8 +352,11 @@ func (s *Sim) run() {
 
 // settle runs to quiescence in serial mode, or the operation's step budget in
 // concurrent mode.
+//
+//go:norace
 func (s *Sim) settle() { s.k.Quiesce() }
 
+//go:norace
 func (s *Sim) afterOp() {
 	s.drain()
 	s.checkKernel()
@@ -350,6 +365,7 @@ func (s *Sim) afterOp() {
 	}
 }
 
+//go:norace
 func (s *Sim) drain() {
 	for ; s.drained < len(s.env.Events); s.drained++ {
 		ev := s.env.Events[s.drained]
@@ -373,6 +389,8 @@ func (s *Sim) drain() {
 }
 
 // safety holds the schedule-independent oracles of concurrent runs.
+//
+//go:norace
 func (s *Sim) safety(ev Event) {
 	switch ev.Kind {
 	case EvNewSC:
@@ -406,6 +424,7 @@ func (s *Sim) safety(ev Event) {
 	}
 }
 
+//go:norace
 func (s *Sim) panicViolation(ev Event) {
 	fn := simkit.FuncOfStack(ev.Addrs)
 	cls := panicClass(ev.Note)
@@ -415,6 +434,7 @@ func (s *Sim) panicViolation(ev Event) {
 	s.stop = true
 }
 
+//go:norace
 func panicClass(msg string) string {
 	switch {
 	case strings.Contains(msg, "nil pointer"):
@@ -436,6 +456,8 @@ func panicClass(msg string) string {
 }
 
 // checkKernel turns kernel-detected conditions into C06 / C05 violations.
+//
+//go:norace
 func (s *Sim) checkKernel() {
 	f := s.k.Fail
 	if f == nil {
@@ -463,6 +485,8 @@ func (s *Sim) checkKernel() {
 // checkQuiescent: at a quiescent point of a serial run nothing may be blocked
 // on a lock, every operation other than a waiting round-robin BIND must have
 // returned, and a waiting round-robin BIND must really have to wait.
+//
+//go:norace
 func (s *Sim) checkQuiescent() {
 	if s.stop {
 		return
@@ -509,12 +533,15 @@ func (s *Sim) checkQuiescent() {
 
 // ---------------------------------------------------------------- operations
 
+//go:norace
 func (s *Sim) spawnCore(op int, kind string, conn int, st connectivity.State, addrs string, fn func()) {
 	tag := &TaskTag{Op: op, Phase: PhCore, Call: -1}
 	s.k.Spawn("core:"+kind, 1, tag, func() {
+		s.env.coreMu.Lock()
 		s.env.add(Event{Kind: EvOpStart, Conn: conn, State: st, Addrs: addrs, Note: kind, Call: -1})
 		note := s.guard(fn)
 		s.env.add(Event{Kind: EvOpEnd, Conn: conn, Note: note, Call: -1})
+		s.env.coreMu.Unlock()
 	})
 }
 
@@ -537,6 +564,7 @@ func (s *Sim) guard(fn func()) (note string) {
 	return ""
 }
 
+//go:norace
 func (s *Sim) stepsAfter(o Op) {
 	if s.plan.Concurrent {
 		s.k.RunSteps(o.N)
@@ -545,6 +573,7 @@ func (s *Sim) stepsAfter(o Op) {
 	}
 }
 
+//go:norace
 func (s *Sim) exec(i int, o Op) {
 	env := s.env
 	switch o.K {
@@ -663,6 +692,8 @@ func (s *Sim) exec(i int, o Op) {
 
 // resolveConnEvent maps a symbolic connection event to the next state report
 // of the fake transport state machine (grpc-go's addrConn).
+//
+//go:norace
 func (s *Sim) resolveConnEvent(sc *FakeSC, o Op) (connectivity.State, bool) {
 	if o.F&FlagOdd != 0 && !s.plan.Legal {
 		st := []connectivity.State{connectivity.Idle, connectivity.Connecting, connectivity.Ready, connectivity.TransientFailure, connectivity.Shutdown}[o.C%5]
@@ -726,13 +757,25 @@ type fakeStream struct {
 	ctx context.Context
 }
 
-func (f *fakeStream) Context() context.Context     { return f.ctx }
-func (f *fakeStream) SendMsg(m interface{}) error  { return nil }
-func (f *fakeStream) RecvMsg(m interface{}) error  { return nil }
-func (f *fakeStream) CloseSend() error             { return nil }
-func (f *fakeStream) Header() (metadata.MD, error) { return nil, nil }
-func (f *fakeStream) Trailer() metadata.MD         { return nil }
+//go:norace
+func (f *fakeStream) Context() context.Context { return f.ctx }
 
+//go:norace
+func (f *fakeStream) SendMsg(m interface{}) error { return nil }
+
+//go:norace
+func (f *fakeStream) RecvMsg(m interface{}) error { return nil }
+
+//go:norace
+func (f *fakeStream) CloseSend() error { return nil }
+
+//go:norace
+func (f *fakeStream) Header() (metadata.MD, error) { return nil, nil }
+
+//go:norace
+func (f *fakeStream) Trailer() metadata.MD { return nil }
+
+//go:norace
 func (s *Sim) startCall(i int, o Op) {
 	if len(s.env.Pubs) == 0 {
 		return
@@ -831,6 +874,7 @@ func (s *Sim) pickAndWait(ctx context.Context, c *Call) error {
 //
 //go:norace
 func (s *Sim) pick(ctx context.Context, c *Call) error {
+	s.env.pubMu.Lock()
 	pubs := s.env.Pubs
 	idx := len(pubs) - 1 - c.Age
 	if idx < 0 {
@@ -838,6 +882,7 @@ func (s *Sim) pick(ctx context.Context, c *Call) error {
 	}
 	c.PubIdx = idx
 	picker := pubs[idx].Picker
+	s.env.pubMu.Unlock()
 	c.Invoked = true
 	c.InvokeSeq = s.env.add(Event{Kind: EvPickInvoke, Conn: -1, Call: c.ID, Pub: idx, Note: fmt.Sprintf("%s keys=%v pub=%d", c.MethodName, c.ReqKeys, idx)})
 	var res balancer.PickResult
@@ -898,6 +943,7 @@ func (s *Sim) waitAndComplete(c *Call) error {
 	return err
 }
 
+//go:norace
 func (s *Sim) completeCall(i int, o Op) {
 	var fl []*Call
 	for _, c := range s.calls {
@@ -912,6 +958,7 @@ func (s *Sim) completeCall(i int, o Op) {
 	s.finishCall(i, c, o.B, keyNames(o.Keys))
 }
 
+//go:norace
 func (s *Sim) finishCall(i int, c *Call, outcome int, replyKeys []string) {
 	c.Outcome = outcome
 	c.ReplyKeys = replyKeys
@@ -944,6 +991,8 @@ func (s *Sim) finishCall(i int, c *Call, outcome int, replyKeys []string) {
 
 // heal stops all faults, completes every call, makes every pool connection
 // READY through legal transitions and then issues a fixed probe workload.
+//
+//go:norace
 func (s *Sim) heal() {
 	i := len(s.plan.Ops)
 	s.healing = true
@@ -1062,6 +1111,7 @@ func (s *Sim) heal() {
 	}
 }
 
+//go:norace
 func (s *Sim) probeCall(i int, method int, keys []string) *Call {
 	c := &Call{ID: len(s.calls), Op: i, Method: method, MethodName: methodNames[method], PubIdx: -1, ReqKeys: keys}
 	c.req = buildMsg(s.plan.Cfg.Locator%len(locators), keys)
@@ -1075,6 +1125,7 @@ func (s *Sim) probeCall(i int, method int, keys []string) *Call {
 	return c
 }
 
+//go:norace
 func (s *Sim) finish() {
 	k := s.k
 	// C17: the caller's configuration object was never touched.
@@ -1094,6 +1145,9 @@ func (s *Sim) finish() {
 	res.Fingerprint = k.Fingerprint
 	res.Switches, res.SwitchInOp = k.Switches, k.SwitchInOp
 	res.Log = k.Log
+	for _, n := range s.env.taskFired {
+		s.env.Fired[n]++
+	}
 	for name, n := range s.env.Fired {
 		res.Count("fault:"+name, n)
 	}
